@@ -7,6 +7,7 @@ package c13
 import (
 	"fmt"
 	"math"
+	"math/rand"
 	"os"
 	"runtime"
 	"sort"
@@ -98,6 +99,10 @@ func TestC13(t *testing.T) {
 		if rec.Mine(c) {
 			if c%10 == 9 {
 				duels(rec, c)
+				continue
+			}
+			if c%40 == 13 {
+				bulk(rec, c)
 				continue
 			}
 			if !runOne(rec, c) {
@@ -625,4 +630,132 @@ func duels(rec *mon.Recorder, c int) {
 	rec.Count("yield_points_hit", int64(atomic.LoadUint64(&yctr)))
 	rec.Seen("workloads", "duels")
 	rec.Case(mon.Digest(desc0), true)
+}
+
+// bulk: an index of tens of thousands of items (every one of its 16 shards has held well over a thousand vertices)
+// is emptied to a fraction by removers while inserters add fresh ids and readers read. Whatever an index does when
+// it is large, or shrinks, happens here; the small-pool runs never get there. Oracles: the race detector, and at
+// rest every acknowledged insert that was not removed is readable, every acknowledged removal is gone, and Len is
+// their number.
+func bulk(rec *mon.Recorder, c int) {
+	rng := rec.Rand("c13-bulk", c)
+	cfg := hx.Cfg{M: 4, Ef: 8, EfC: 8, Metric: 1, Dim: 3, MaxLevel: 2}
+	n := rec.N(18000, 40000)
+	desc := fmt.Sprintf("run=%d bulk items=%d cfg=%s", c, n, cfg.String())
+	rec.Current(desc)
+	idx, _ := cfg.New()
+	for i := 0; i < n; i++ {
+		lvl := 0
+		if i%16 == 0 {
+			lvl = 1 + i%2
+		}
+		if err := idx.Insert(hx.Id(i), cfg.Vec(rng), nil, lvl); err != nil {
+			rec.Violation("bulk:setup-insert", fmt.Sprintf("%s: %v", desc, err), nil)
+			return
+		}
+	}
+	prev := runtime.GOMAXPROCS(16)
+	defer runtime.GOMAXPROCS(prev)
+	var wg sync.WaitGroup
+	removedOK := make([]int32, n)
+	var stop int32
+	// removers: each takes a stripe of the preloaded ids, down to an eighth of the index
+	removers := 6
+	for g := 0; g < removers; g++ {
+		wg.Add(1)
+		go func(g int) {
+			defer wg.Done()
+			for i := g; i < n-n/8; i += removers {
+				if err := idx.Remove(hx.Id(i)); err == nil {
+					atomic.StoreInt32(&removedOK[i], 1)
+				}
+			}
+		}(g)
+	}
+	// inserters: fresh ids, each inserted once; some are removed again by their own inserter
+	inserters := 6
+	perIns := n / 12
+	insertedOK := make([]int32, inserters*perIns)
+	for g := 0; g < inserters; g++ {
+		wg.Add(1)
+		go func(g int) {
+			defer wg.Done()
+			r := rand.New(rand.NewSource(int64(c)*131 + int64(g)))
+			for j := 0; j < perIns && atomic.LoadInt32(&stop) == 0; j++ {
+				k := g*perIns + j
+				if err := idx.Insert(hx.Id(n+k), cfg.Vec(r), nil, 0); err == nil {
+					atomic.StoreInt32(&insertedOK[k], 1)
+					if j%5 == 0 {
+						if err := idx.Remove(hx.Id(n + k)); err == nil {
+							atomic.StoreInt32(&insertedOK[k], 2)
+						}
+					}
+				}
+			}
+		}(g)
+	}
+	// readers
+	var rwg sync.WaitGroup
+	for g := 0; g < 3; g++ {
+		rwg.Add(1)
+		go func(g int) {
+			defer rwg.Done()
+			r := rand.New(rand.NewSource(int64(c)*977 + int64(g)))
+			for atomic.LoadInt32(&stop) == 0 {
+				idx.Get(hx.Id(r.Intn(n + inserters*perIns)))
+				idx.Len()
+				if g == 0 {
+					hx.Search(idx, cfg.Vec(r), 5)
+				}
+			}
+		}(g)
+	}
+	wg.Wait()
+	atomic.StoreInt32(&stop, 1)
+	rwg.Wait()
+	// at rest
+	want := 0
+	for i := 0; i < n; i++ {
+		_, err := idx.Get(hx.Id(i))
+		gone := atomic.LoadInt32(&removedOK[i]) == 1
+		if gone && err == nil {
+			rec.Violation("bulk:quiescent:removed-item-still-readable", fmt.Sprintf("%s: preloaded id %d was removed (acknowledged) and Get still finds it", desc, i), nil)
+			return
+		}
+		if !gone {
+			if i < n-n/8 {
+				rec.Violation("bulk:quiescent:remove-refused", fmt.Sprintf("%s: preloaded id %d: its one Remove was refused", desc, i), nil)
+				return
+			}
+			if err != nil {
+				rec.Violation("bulk:quiescent:stored-item-not-readable", fmt.Sprintf("%s: preloaded id %d was never removed and Get says %v", desc, i, err), nil)
+				return
+			}
+			want++
+		}
+	}
+	for k, st := range insertedOK {
+		_, err := idx.Get(hx.Id(n + k))
+		switch {
+		case st == 1 && err != nil:
+			rec.Violation("bulk:quiescent:acknowledged-insert-not-readable", fmt.Sprintf("%s: id %d was inserted (acknowledged) while the index was being emptied, and Get says %v", desc, n+k, err), nil)
+			return
+		case st == 2 && err == nil:
+			rec.Violation("bulk:quiescent:removed-item-still-readable", fmt.Sprintf("%s: id %d was inserted and removed again (both acknowledged) and Get still finds it", desc, n+k), nil)
+			return
+		case st == 0:
+			rec.Violation("bulk:quiescent:insert-of-a-fresh-id-refused", fmt.Sprintf("%s: id %d: its one Insert was refused", desc, n+k), nil)
+			return
+		}
+		if st == 1 {
+			want++
+		}
+	}
+	if idx.Len() != want {
+		rec.Violation("bulk:quiescent:len-counter", fmt.Sprintf("%s: Len()=%d but %d items are stored", desc, idx.Len(), want), nil)
+		return
+	}
+	rec.Count("bulk_runs", 1)
+	rec.Count("bulk_items_removed_under_concurrent_writers", int64(n-n/8))
+	rec.Case(mon.Digest(desc), true)
 }
